@@ -140,7 +140,70 @@ def define_va():
             return r
 
     _VA.__name__ = _VA.__qualname__ = "VA"
+
+    class _VAF(_VA):
+        """forwards unknown attributes to the data set it holds (a common convenience in user analyses)"""
+
+        def __getattr__(self, item):
+            if item.startswith("__") or item == "dataset":
+                raise AttributeError(item)
+            ds = self.__dict__.get("dataset")
+            if ds is not None and item in ds.__dict__:
+                return ds.__dict__[item]
+            return super().__getattr__(item)
+
+    class _VAO(_VA):
+        """overrides log_likelihood_function (delegating to the base one)"""
+
+        def log_likelihood_function(self, instance):
+            return super().log_likelihood_function(instance)
+
+    _VAF.__name__ = _VAF.__qualname__ = "VAF"
+    _VAO.__name__ = _VAO.__qualname__ = "VAO"
+    _VA.variants = {"fwd": _VAF, "sub": _VAO}
     return _VA
+
+
+class DS:
+    """the data set a forwarding analysis holds"""
+
+
+def make_va(j, ad, sl, scale, shape=None, default_pids=None, priors=None):
+    """Harness analysis j, carrying the book-keeping attributes its description asks for (`decoy`): attributes of a USER
+    object whose names collide with what the library's own wrappers use (model, analysis, analyses, index, n_cores,
+    free_parameters).  They are not part of the declared sum: no clause of C15 may depend on them."""
+    dec = ad.get("decoy") or {}
+    cls = VA.variants.get(dec.get("cls"), VA)
+    a = cls(j, ad, sl, scale)
+    target = a
+    if dec.get("cls") == "fwd":
+        a.dataset = DS()
+        target = a.dataset
+
+    def other(k):
+        return VA(1000 + 10 * j + k, {"c": 100003 + 17 * j + k, "w": [3] * len(ad.get("w", []))}, sl, scale)
+
+    def alt_model(mix):
+        if not shape:
+            return af.Model(P1, a0=af.UniformPrior(lower_limit=0.0, upper_limit=1.0))
+        pids = [p if (mix and k % 2 == 0) else 900 + 50 * j + k for k, p in enumerate(default_pids)]
+        return build_model(shape, pids, priors)
+
+    for name, spec in sorted((dec.get("attrs") or {}).items()):
+        if spec is None or spec == "none":
+            val = None
+        elif name == "model":
+            val = alt_model(spec == "mix")
+        elif name == "analysis":
+            val = other(0)
+        elif name == "analyses":
+            val = [other(1), other(2)] if spec == "others" else []
+        elif name == "free_parameters":
+            val = [priors[p] for p in sorted(set(default_pids or [])) if p in (priors or {})] if spec == "priors" else []
+        else:
+            val = spec
+        setattr(target, name, val)
+    return a
 
 
 # ---------------------------------------------------------------------------------------
@@ -406,8 +469,8 @@ def run_case(c, idx):
         key = (j, bool(node.get("hm")))
         if key in cache:                      # the same object when an analysis is written twice
             return cache[key]
-        ad = c["ads"][j] if "ads" in c else {}
-        a = VA(j, ad, sl, scale)
+        ad = c["ads"][j] if "ads" in c and j < len(c["ads"]) else {}
+        a = make_va(j, ad, sl, scale, shape, c.get("default"), priors)
         if node.get("hm"):
             a = a.with_model(models[j] if j in models else af.Model(P1, a0=af.UniformPrior(0.0, 1.0)))
         cache[key] = a
@@ -559,6 +622,7 @@ def main():
     CombinedAnalysis, IndexedAnalysis, FreeParameterAnalysis, ModelAnalysis, CombinedModelAnalysis = CA, IA, FA, MA, CMA
     VA = define_va()
     globals()["VA"] = VA          # picklable by reference as __main__.VA
+    globals()["VAF"], globals()["VAO"] = VA.variants["fwd"], VA.variants["sub"]
 
     cases = json.load(open(sys.argv[1]))["cases"]
     out = []
